@@ -381,7 +381,11 @@ Definition apply_op (c : config) (live cfg : tv) (version : string) (managers : 
               | Some f =>
                   let set1 := filter_set f set0 in
                   let mf1 := mf_set manager (mkRec set1 version true) mf0 in
-                  match prune c n0 newObject mf1 manager lastSet with
+                  (* prune sees the unfiltered set of the configuration (fix: ignored fields
+                     that are being applied must not be pruned; the same set when nothing
+                     is ignored) *)
+                  let mfp := mf_set manager (mkRec set0 version true) mf0 in
+                  match prune c n0 newObject mfp manager lastSet with
                   | UErr e => UErr e
                   | UOk (pruned, n1) =>
                       match update_core c n1 live pruned version mf1 manager force with
